@@ -71,7 +71,10 @@ class Obligation:
 class Ctx:
     def __init__(self, pid, tier, seed):
         self.pid, self.tier, self.seed = pid, tier, seed
-        self.out = os.path.join(VERIF, "out", pid)
+        # runs against another tree (VERIF_REPO: seeded changes in scratch worktrees) keep their output apart from the
+        # output and evidence of /repo itself
+        self.alt = os.path.realpath(REPO) != "/repo"
+        self.out = os.path.join(VERIF, "out", "_alt", pid) if self.alt else os.path.join(VERIF, "out", pid)
         shutil.rmtree(self.out, ignore_errors=True)
         os.makedirs(self.out, exist_ok=True)
         self.t0 = time.time()
@@ -241,8 +244,9 @@ class Ctx:
         ev = dict(property_id=self.pid, tier=self.tier, seed=self.seed, level=self.level,
                   coverage=cov, assumptions=self.assumptions, wall_s=round(time.time() - self.t0, 2),
                   violations=self.nviol)
-        os.makedirs(os.path.join(VERIF, "evidence"), exist_ok=True)
-        json.dump(ev, open(os.path.join(VERIF, "evidence", self.pid + ".json"), "w"), indent=1)
+        evdir = os.path.join(VERIF, "out", "_alt", "evidence") if self.alt else os.path.join(VERIF, "evidence")
+        os.makedirs(evdir, exist_ok=True)
+        json.dump(ev, open(os.path.join(evdir, self.pid + ".json"), "w"), indent=1)
         json.dump(self.extraction, open(os.path.join(self.out, "extraction_report.json"), "w"), indent=1)
 
 
